@@ -88,6 +88,7 @@ type Exec struct {
 	props  []string
 	parent *Exec
 	freeVals map[string]Val // closure free variable name -> pointer value
+	curCall  *ssa.CallCommon
 }
 
 func (x *Exec) cellKey(a *ssa.Alloc) string {
@@ -128,6 +129,20 @@ func (x *Exec) oblige(st *State, kind string, pos token.Pos, goal string, tag st
 	if goal == "true" {
 		// trivially true obligations are still counted (they are discharged syntactically)
 	}
+	if strings.HasPrefix(goal, "(and ") && strings.Contains(goal, "(forall ") && !strings.HasSuffix(tag, "~") {
+		parts := splitSexp(goal[5 : len(goal)-1])
+		if len(parts) > 1 {
+			for i, pt := range parts {
+				t := tag
+				if t == "" {
+					t = "conj"
+				}
+				x.oblige(st, kind, pos, pt, fmt.Sprintf("%s.c%d~", t, i+1), props)
+			}
+			return
+		}
+	}
+	tag = strings.TrimSuffix(tag, "~")
 	where, txt := x.v.srcLine(x.p, pos)
 	base := fmt.Sprintf("%s#%s", x.key, kind)
 	if tag != "" {
@@ -380,11 +395,11 @@ func (x *Exec) loopModSet(li *loopInfo) *loopMods {
 	ms := &ModSet{Regions: map[string]bool{}}
 	for b := range li.body {
 		for _, in := range b.Instrs {
-			if a, ok := in.(*ssa.Alloc); ok && !a.Heap {
+			if a, ok := in.(*ssa.Alloc); ok && (!a.Heap || privateAlloc(a)) {
 				lm.locals[x.cellKey(a)] = a
 			}
 			if s, ok := in.(*ssa.Store); ok {
-				if a := rootAlloc(s.Addr); a != nil && !a.Heap {
+				if a := rootAlloc(s.Addr); a != nil && (!a.Heap || privateAlloc(a)) {
 					lm.locals[x.cellKey(a)] = a
 					continue
 				}
@@ -395,6 +410,105 @@ func (x *Exec) loopModSet(li *loopInfo) *loopMods {
 	lm.regions = ms.Regions
 	lm.all = ms.All
 	return lm
+}
+
+// privateAlloc: a variable that is captured by closures but cannot be
+// reached by any other code: every use is a direct load/store or the binding
+// of a closure that is only ever called or deferred by this function.  Such
+// a variable is kept as a local cell (callees cannot modify it).
+var privateCache = map[*ssa.Alloc]bool{}
+
+func privateAlloc(a *ssa.Alloc) bool {
+	if v, ok := privateCache[a]; ok {
+		return v
+	}
+	res := computePrivate(a)
+	privateCache[a] = res
+	return res
+}
+
+func computePrivate(a *ssa.Alloc) bool {
+	if !a.Heap || a.Referrers() == nil {
+		return false
+	}
+	et := a.Type().(*types.Pointer).Elem()
+	switch et.Underlying().(type) {
+	case *types.Array:
+		return false
+	}
+	sawClosure := false
+	for _, r := range *a.Referrers() {
+		switch r := r.(type) {
+		case *ssa.Store:
+			if r.Val == ssa.Value(a) {
+				return false
+			}
+		case *ssa.UnOp, *ssa.DebugRef:
+		case *ssa.MakeClosure:
+			sawClosure = true
+			if !closureConfined(r) {
+				return false
+			}
+		default:
+			return false
+		}
+	}
+	return sawClosure
+}
+
+// closureConfined: the closure value is only called or deferred (possibly
+// after being kept in a local variable that is itself only loaded and called).
+func closureConfined(mc *ssa.MakeClosure) bool {
+	if mc.Referrers() == nil {
+		return false
+	}
+	for _, r := range *mc.Referrers() {
+		switch r := r.(type) {
+		case *ssa.Call:
+			if r.Call.Value != ssa.Value(mc) {
+				return false
+			}
+		case *ssa.Defer:
+			if r.Call.Value != ssa.Value(mc) {
+				return false
+			}
+		case *ssa.DebugRef:
+		case *ssa.Store:
+			la, ok := r.Addr.(*ssa.Alloc)
+			if !ok || la.Heap || la.Referrers() == nil {
+				return false
+			}
+			for _, lr := range *la.Referrers() {
+				switch lr := lr.(type) {
+				case *ssa.Store:
+					if lr.Addr != ssa.Value(la) {
+						return false
+					}
+				case *ssa.DebugRef:
+				case *ssa.UnOp:
+					if lr.Referrers() == nil {
+						return false
+					}
+					for _, ur := range *lr.Referrers() {
+						switch ur := ur.(type) {
+						case *ssa.Call:
+							if ur.Call.Value != ssa.Value(lr) {
+								return false
+							}
+						case *ssa.DebugRef:
+						default:
+							return false
+						}
+					}
+				default:
+					return false
+				}
+			}
+		default:
+			return false
+		}
+	}
+	return true
 }
 
 func rootAlloc(v ssa.Value) *ssa.Alloc {
@@ -760,7 +874,7 @@ var bigZero = newBig(0)
 func (x *Exec) doAlloc(st *State, a *ssa.Alloc) {
 	c := x.c
 	et := a.Type().(*types.Pointer).Elem()
-	if !a.Heap {
+	if !a.Heap || privateAlloc(a) {
 		key := x.cellKey(a)
 		if isExecLevel(et) {
 			st.cells[key] = Val{T: et, Undef: true}
@@ -1284,7 +1398,7 @@ func (x *Exec) indexAddr(st *State, ia *ssa.IndexAddr) Val {
 	switch bt := ia.X.Type().Underlying().(type) {
 	case *types.Slice:
 		x.boundsCheck(st, idx, sLen(base.S), ia.Pos())
-		return Val{T: ia.Type(), P: &Ptr{Kind: pElem, Ref: sRef(base.S), Idx: c.def("ix", "Int", sx("+", sOff(base.S), idx)), BaseT: bt.Elem()}}
+		return Val{T: ia.Type(), P: &Ptr{Kind: pElem, Ref: sRef(base.S), Idx: sx("+", sOff(base.S), idx), BaseT: bt.Elem()}}
 	case *types.Pointer:
 		at := bt.Elem().Underlying().(*types.Array)
 		x.boundsCheck(st, idx, fmt.Sprint(at.Len()), ia.Pos())
